@@ -29,6 +29,7 @@ def run_checked(ctx):
     if ctx.replay and sc.replay(ctx, ["-c09"], hargs, (False, False, True)):
         return
     hists = sc.hstore(["-mode", "hist", "-n", n, "-seed", ctx.seed, "-c09"] + hargs)
+    hists += sc.single_proc_histories(ctx.seed, ["-c09"], hargs, 8 if ctx.quick() else 100)
     bad = sc.model_mismatches(ctx, "cases_c09", hists, False, False, True, shard=100)
     sc.report(ctx, ctx.seed, hargs, hists, bad)
     sc.oracle_check(ctx, ctx.seed, hargs, hists, *(False, False, True))
